@@ -1,7 +1,10 @@
 /-
   MODEL of the archive layer (include/bitserializer/csv_archive.h, src/csv/csv_archive.cpp):
   `ValidateSeparator`, `SaveObject<CsvArchive>` of a sequence of objects (each object issues one
-  `WriteValue(key, value)` per field, its scope's destructor calls `NextLine`), `LoadObject<CsvArchive>`
+  `WriteValue(key, value)` per field, its scope's destructor calls `NextLine`; an exception of `NextLine` is
+  caught in the destructor, deferred to the SerializationContext and rethrown by `CsvWriteRootScope::Finalize()`
+  — `saveStringDeferred` / `saveStreamDeferred` below, equal to the stop-at-the-first-error sessions
+  `saveString` / `saveStream` by `C20.csv_deferred_save_eq`), `LoadObject<CsvArchive>`
   into a sequence of objects (`while (!IsEnd()) { ParseNextRow(); ReadValue(key) per field }`).
   Objects are lists of (key, string value); the header is always on (`withHeader = true`).
 -/
@@ -23,6 +26,48 @@ def saveString (sep : Nat) (objs : List (List Writer.KV)) : Except Err (List Nat
 def saveStream (sep : Nat) (objs : List (List Writer.KV)) : Except Err (List Nat) := do
   validateSeparator sep
   Writer.saveStream sep true objs
+
+/-! ### the deferred-error path of `~CCsvWriteObjectScope` (fix d75a225)
+
+`NextLine()` throws before it changes anything (`if (mValueIndex != mPrevValuesCount) throw …`), so after a
+failed call the writer is as `WriteValue` left it; the destructor catches the exception, the context keeps the first
+one, the remaining objects are written as if nothing had happened and `Finalize()` rethrows. -/
+
+/-- `DeferError`: keep the first -/
+def deferError (dfr : Option Err) (e : Err) : Option Err :=
+  match dfr with
+  | some d => some d
+  | none => some e
+
+def stringRowsDeferred (w : Writer.StringWriter) (dfr : Option Err) : List (List Writer.KV) → Writer.StringWriter × Option Err
+  | [] => (w, dfr)
+  | row :: rows =>
+    let w1 := row.foldl (fun w kv => w.writeValue kv.1 kv.2) w
+    match w1.nextLine with
+    | .ok w2 => stringRowsDeferred w2 dfr rows
+    | .error e => stringRowsDeferred w1 (deferError dfr e) rows
+
+def streamRowsDeferred (w : Writer.StreamWriter) (dfr : Option Err) : List (List Writer.KV) → Writer.StreamWriter × Option Err
+  | [] => (w, dfr)
+  | row :: rows =>
+    let w1 := row.foldl (fun w kv => w.writeValue kv.1 kv.2) w
+    match w1.nextLine with
+    | .ok w2 => streamRowsDeferred w2 dfr rows
+    | .error e => streamRowsDeferred w1 (deferError dfr e) rows
+
+/-- `SaveObject<CsvArchive>(rows, std::string&)` as the code runs it: every object scope is opened and closed,
+    `Finalize()` reports the first deferred error -/
+def saveStringDeferred (sep : Nat) (objs : List (List Writer.KV)) : Except Err (List Nat) := do
+  validateSeparator sep
+  match stringRowsDeferred (Writer.StringWriter.mk [] true sep [] 0 0 0) none objs with
+  | (_, some e) => .error e
+  | (w, none) => .ok w.out
+
+def saveStreamDeferred (sep : Nat) (objs : List (List Writer.KV)) : Except Err (List Nat) := do
+  validateSeparator sep
+  match streamRowsDeferred (Writer.StreamWriter.mk [] true sep [] [] 0 0 0) none objs with
+  | (_, some e) => .error e
+  | (w, none) => .ok w.stream
 
 def ofOutcome : Outcome → Except Err (List (List Cell))
   | .ok _ rows _ _ => .ok rows
